@@ -322,8 +322,29 @@ func finish(cc *CheckCtx, t0 time.Time, seed int) {
 			samples = append(samples, map[string]any{"obligation": it.Name, "kind": it.Kind, "status": it.Status, "backend": it.Backend, "what": it.Detail, "smt_goal": g})
 		}
 	}
+	// the slowest discharged obligations (the ones most exposed to machine load) and how many needed the second pass
+	var slow []*Item
+	secondPass := 0
+	for _, it := range cc.Items {
+		if it.Status == "proved" && it.Kind != "cover" && !it.Bounded {
+			slow = append(slow, it)
+		}
+		if strings.Contains(it.Backend, "second pass") {
+			secondPass++
+		}
+	}
+	sort.Slice(slow, func(i, j int) bool { return slow[i].Secs > slow[j].Secs })
+	var slowest []any
+	for i, it := range slow {
+		if i >= 8 {
+			break
+		}
+		slowest = append(slowest, map[string]any{"obligation": it.Name, "seconds": it.Secs, "backend": it.Backend})
+	}
 	wall := time.Since(t0).Seconds()
 	cov := map[string]any{
+		"slowest_discharged":        slowest,
+		"needed_second_pass":        secondPass,
 		"obligations":               obligations,
 		"discharged":                discharged,
 		"checker_cmd":               fmt.Sprintf("/verif/bin/govc check -prop %s -tier %s (z3-new 5.1.0, cvc5 1.0.3, z3 4.8.12 raced per obligation, %ds per attempt)", cc.Prop, cc.Tier, cc.Timeout),
